@@ -93,6 +93,11 @@ Definition opt_disable_all (master : host) (nodes : list host) : prog oerr :=
   errs <- forM names (fun h => if mem_host h nodes then opt_disable h rs else Ret None) ;;
   Ret (if existsb (fun e => match e with Some _ => true | None => false end) errs then Some EOther else None).
 
+(* stopActiveNodeOptimization hands cluster.Get(oldMaster) to DisableAll: a recorded master the
+   process has no handle for is a nil node, dereferenced right after the registry listing *)
+Definition opt_disable_all_k (known : bool) (master : host) (nodes : list host) : prog oerr :=
+  if known then opt_disable_all master nodes else (dcs_children_ 50153 POptNodes ;;; Panic 50114).
+
 (* ---- helpers --------------------------------------------------------------------- *)
 Definition lock_acquire (s : site) : prog bool :=
   Do s LockAcquire (fun r => match r with RBool b => Ret b | _ => Ret false end).
@@ -390,7 +395,7 @@ Definition perform_switchover (cfg : config) (env : sw_env) (sw : switch_rec) (m
     | CauseAuto, Some f => if N.eqb f old then filter_out active_with_old [old] else active_with_old
     | _, _ => active_with_old
     end in
-  e0 <- opt_disable_all old active ;;
+  e0 <- opt_disable_all_k (mem_host old (map fst (se_all_hosts env))) old active ;;
   match e0 with Some _ => Ret (SwErr 1245, mem) | None =>
   (if negb (is_failover sw) then start_timing_now 0 else Ret tt) ;;;
   Par 1260 (map (fun h => (h, freeze_host env h)) active) (fun errs =>
